@@ -253,4 +253,7 @@ GEO_LAYOUT_INPUTS = [
     {'name': 'Drawdown Parameter', 'dist': 'uniform', 'args': [0.00001, 0.0006], 'edge': False, 'discrete': False},
     {'name': 'Reservoir Impedance', 'dist': 'triangular', 'args': [0.005, 0.012, 0.03], 'edge': False, 'discrete': False},
 ]
-GEO_LAYOUT_OUTPUTS = ['Average Pumping Power', 'Heat to Power Conversion Efficiency']
+# tracked in every such run: the two lines below the vanishing one, and the vanishing line itself (its cell is then the
+# placeholder for a missing value in some rows and a number in others)
+GEO_LAYOUT_OUTPUTS = {'Reservoir Impedance': ['Average Pumping Power', 'Heat to Power Conversion Efficiency', 'Initial pumping power/net installed power'],
+                      'Drawdown Parameter': ['Average Pumping Power', 'Heat to Power Conversion Efficiency']}
